@@ -404,6 +404,45 @@ async def tee_peer(
             await iterator.aclose()
 
 
+class _TeePeer(AsyncIterator[T]):
+    """
+    An individual child of a :py:func:`~.tee` that cleans up even if never advanced
+
+    Closing an asynchronous generator that was never started does not run its
+    ``finally`` clause. This wrapper makes sure the buffer of such a child is
+    dropped and the iterator is closed when the last child is done.
+    """
+
+    __slots__ = ("_iterator", "_buffer", "_peers", "_generator")
+
+    def __init__(
+        self,
+        iterator: AsyncIterator[T],
+        buffer: Deque[T],
+        peers: List[Deque[T]],
+        lock: AsyncContextManager[Any],
+    ):
+        self._iterator = iterator
+        self._buffer = buffer
+        self._peers = peers
+        self._generator = tee_peer(iterator, buffer, peers, lock)
+
+    def __anext__(self) -> Awaitable[T]:
+        return self._generator.__anext__()
+
+    async def aclose(self) -> None:
+        await self._generator.aclose()
+        # a closed child never yields again: do not keep its backlog alive
+        self._buffer.clear()
+        # the generator already cleaned up unless it was never advanced
+        for idx, peer_buffer in enumerate(self._peers):  # pragma: no branch
+            if peer_buffer is self._buffer:
+                self._peers.pop(idx)
+                if not self._peers and isinstance(self._iterator, ACloseable):
+                    await self._iterator.aclose()
+                break
+
+
 @public_module(__name__, "tee")
 class Tee(Generic[T]):
     """
@@ -455,7 +494,7 @@ class Tee(Generic[T]):
         self._iterator = aiter(iterable)
         self._buffers: List[Deque[T]] = [deque() for _ in range(n)]
         self._children = tuple(
-            tee_peer(
+            _TeePeer(
                 iterator=self._iterator,
                 buffer=buffer,
                 peers=self._buffers,
